@@ -456,7 +456,8 @@ Definition keys_ok (keys : list str) : bool :=
 Definition digits_ok (d : str) : bool := forallb NM.is_digit d.
 
 (* flags tracked along a token list the way lex_go does; For / Some / Every (till_in), Function / Context / Range / List
-   (look-ahead terminators), Not (unary tests) and names that are not scope keys are outside the printable lists *)
+   (look-ahead terminators), Not (unary tests), names that are not scope keys and names where a type is expected are outside the
+   printable lists *)
 Definition tok_ok (keys : list str) (fl : flags) (t : ltoken) : bool :=
   match t with
   | LKw KAnd => negb (f_between fl)
@@ -466,13 +467,14 @@ Definition tok_ok (keys : list str) (fl : flags) (t : ltoken) : bool :=
   | LSym _ | LBool _ | LNull => true
   | LNum b a => match b with [] => false | _ => digits_ok b && digits_ok a end
   | LStr s => forallb scalar s
-  | LName n => NM.mem n keys
+  | LName n => NM.mem n keys && negb (f_type fl)
   | LNameDT _ => false
   | LType n => f_type fl && NM.mem n type_words
   end.
 
 (* the flags after a printable token (what next_token leaves, then the policy) *)
-Definition tok_flags (fl : flags) (t : ltoken) : flags :=
+Definition tok_flags (fl0 : flags) (t : ltoken) : flags :=
+  let fl := clr_unary fl0 in
   match t with
   | LKw KBetweenAnd => set_between false fl
   | LKw KBetween => set_between true fl
